@@ -7,6 +7,7 @@ import (
 	"fmt"
 	"reflect"
 	"sort"
+	"strconv"
 	"strings"
 	"testing"
 
@@ -51,6 +52,9 @@ type fin struct {
 	Composite  bool   // find-pk / update: the model value is an Item2 (composite key id, k2)
 	K2         int    // second key part of the Item2 value (0 = not set)
 	Inline     *cond.Unit
+	Variant    string     // find: destination form; first: first|take|last; update: the update method
+	Scope      *cond.Unit // db.Scopes(func(d) d.Where(unit)) at the head of the chain: applied last, AND-ed
+	Cfg        string     // "" | PrepareStmt | QueryFields | SkipDefaultTransaction | NoReturning | tx
 }
 
 func (f fin) String() string {
@@ -66,7 +70,16 @@ func (f fin) String() string {
 		pk = fmt.Sprintf("<Item2 key (id,k2)> ID:%d K2:%d", f.PK, f.K2)
 	}
 	switch f.Kind {
+	case "first":
+		return f.Variant + "(&Item{}" + in + ")"
+	case "pluck":
+		return "Model(&Item{}).Pluck(id)"
+	case "count-find":
+		return "Model(&Item{}) q.Count(); q.Find(&[]Item)"
 	case "find":
+		if f.Variant != "" {
+			return "Find(" + f.Variant + in + ")"
+		}
 		return "Find(&[]Item" + in + ")"
 	case "find-pk":
 		return "Find(&Item{" + pk + "}" + in + ")"
@@ -77,7 +90,11 @@ func (f fin) String() string {
 		if f.ModelFirst {
 			pos = "before"
 		}
-		return "Model(&Item{" + pk + "})[" + pos + "].Update(mark,7)"
+		m := f.Variant
+		if m == "" {
+			m = "Update(mark,7)"
+		}
+		return "Model(&Item{" + pk + "})[" + pos + "]." + m
 	}
 	if f.ViaModel {
 		return "Model(&Item{" + pk + "}).Delete(&Item{}" + in + ")"
@@ -99,7 +116,14 @@ func (c tcase) String() string {
 			k2 += fmt.Sprint(r.FK)
 		}
 	}
-	return "rows=" + cond.RowsString(c.Rows) + k2 + " chain=db" + cond.CallsString(c.Calls) + "." + c.Fin.String()
+	head := "db"
+	if c.Fin.Cfg != "" {
+		head = "db[" + c.Fin.Cfg + "]"
+	}
+	if c.Fin.Scope != nil {
+		head += ".Scopes(Where(" + c.Fin.Scope.String() + "))"
+	}
+	return "rows=" + cond.RowsString(c.Rows) + k2 + " chain=" + head + cond.CallsString(c.Calls) + "." + c.Fin.String()
 }
 
 func (c tcase) pred() *cond.Node {
@@ -109,6 +133,9 @@ func (c tcase) pred() *cond.Node {
 	}
 	if c.Fin.PK != 0 {
 		tail = append(tail, cond.Atom("id", cond.OpEq, cond.IntV(c.Fin.PK)))
+	}
+	if c.Fin.Scope != nil {
+		tail = append(tail, c.Fin.Scope.Pred())
 	}
 	if c.Fin.K2 != 0 {
 		tail = append(tail, cond.Atom("fk", cond.OpEq, cond.IntV(c.Fin.K2)))
@@ -131,7 +158,7 @@ func genCase(rt *rapid.T) tcase {
 	x := cond.G(rt)
 	n := []int{1, 1, 2, 2, 2, 3, 3, 3, 4, 5}[x.N(10)]
 	c.Calls = cond.GenCalls(rt, cfg, n)
-	kind := []string{"find", "find", "find", "find-pk", "count", "count", "update", "update", "delete", "delete"}[x.N(10)]
+	kind := []string{"find", "find", "find", "find-pk", "count", "count", "update", "update", "delete", "delete", "first", "pluck", "count-find"}[x.N(13)]
 	c.Fin.Kind = kind
 	pk := func() int { return 1 + x.N(13) }
 	for i := range c.Rows {
@@ -149,8 +176,22 @@ func genCase(rt *rapid.T) tcase {
 			}
 		}
 	}
+	if x.Pct(30) {
+		c.Fin.Cfg = []string{"PrepareStmt", "QueryFields", "SkipDefaultTransaction", "NoReturning", "tx"}[x.N(5)]
+	}
+	if x.Pct(12) {
+		scfg := cfg
+		scfg.NoGroup = true
+		c.Fin.Scope = cond.GenUnit(rt, scfg, 0)
+	}
 	switch kind {
+	case "first":
+		c.Fin.Variant = []string{"First", "Take", "Last"}[x.N(3)]
+		if x.Pct(30) {
+			c.Fin.Inline = cond.GenInline(rt, cfg)
+		}
 	case "find":
+		c.Fin.Variant = []string{"", "", "&[]*Item", "&[]map"}[x.N(4)]
 		if x.Pct(35) {
 			c.Fin.Inline = cond.GenInline(rt, cfg)
 		}
@@ -162,6 +203,7 @@ func genCase(rt *rapid.T) tcase {
 		}
 	case "update":
 		c.Fin.ModelFirst = x.Pct(50)
+		c.Fin.Variant = []string{"", "", "Updates(map)", "Updates(Item{Mark:7})", "UpdateColumn(mark,7)", "UpdateColumns(map)"}[x.N(6)]
 		if x.Pct(20) {
 			c.Fin.PK = pk()
 			composite()
@@ -192,11 +234,13 @@ type outcome struct {
 	count    int64
 	affected int64
 	err      error
+	notFound bool
 	after    []cond.Stored
 }
 
 func run(c tcase) (outcome, error) {
-	d := testdb.Open(testdb.Options{})
+	d := testdb.Open(testdb.Options{NoReturning: c.Fin.Cfg == "NoReturning", Config: gorm.Config{
+		PrepareStmt: c.Fin.Cfg == "PrepareStmt", QueryFields: c.Fin.Cfg == "QueryFields", SkipDefaultTransaction: c.Fin.Cfg == "SkipDefaultTransaction"}})
 	defer d.Close()
 	if err := spec.Create(d.SQL); err != nil {
 		return outcome{}, fmt.Errorf("create: %w", err)
@@ -204,7 +248,19 @@ func run(c tcase) (outcome, error) {
 	if err := spec.Insert(d.SQL, insertRows(c.Rows)); err != nil {
 		return outcome{}, fmt.Errorf("insert: %w", err)
 	}
-	env := cond.Env{Base: d.DB, MakeStruct: cond.StructMaker(reflect.TypeOf(cond.Item{}))}
+	root := d.DB
+	if c.Fin.Cfg == "tx" {
+		root = d.DB.Begin()
+		if root.Error != nil {
+			return outcome{}, fmt.Errorf("begin: %w", root.Error)
+		}
+	}
+	env := cond.Env{Base: root, MakeStruct: cond.StructMaker(reflect.TypeOf(cond.Item{}))}
+	start := root
+	if c.Fin.Scope != nil {
+		q, a := c.Fin.Scope.QueryArgs(env)
+		start = root.Scopes(func(d *gorm.DB) *gorm.DB { return d.Where(q, a...) })
+	}
 	var inline []interface{}
 	if c.Fin.Inline != nil {
 		inline = c.Fin.Inline.Inline(env)
@@ -212,9 +268,65 @@ func run(c tcase) (outcome, error) {
 	var o outcome
 	switch c.Fin.Kind {
 	case "find":
-		var items []cond.Item
-		tx := cond.ApplyCalls(d.DB, env, c.Calls).Find(&items, inline...)
+		o.ids = []int{}
+		switch c.Fin.Variant {
+		case "&[]*Item":
+			var items []*cond.Item
+			tx := cond.ApplyCalls(start, env, c.Calls).Find(&items, inline...)
+			o.err, o.affected = tx.Error, tx.RowsAffected
+			for _, it := range items {
+				o.ids = append(o.ids, it.ID)
+			}
+		case "&[]map":
+			var items []map[string]interface{}
+			tx := cond.ApplyCalls(start.Model(&cond.Item{}), env, c.Calls).Find(&items, inline...)
+			o.err, o.affected = tx.Error, tx.RowsAffected
+			for _, it := range items {
+				id, err := strconv.Atoi(fmt.Sprint(it["id"]))
+				if err != nil {
+					return o, fmt.Errorf("map destination: id %v (%T)", it["id"], it["id"])
+				}
+				o.ids = append(o.ids, id)
+			}
+		default:
+			var items []cond.Item
+			tx := cond.ApplyCalls(start, env, c.Calls).Find(&items, inline...)
+			o.err, o.affected = tx.Error, tx.RowsAffected
+			for _, it := range items {
+				o.ids = append(o.ids, it.ID)
+			}
+		}
+	case "first":
+		var it cond.Item
+		tx := cond.ApplyCalls(start, env, c.Calls)
+		switch c.Fin.Variant {
+		case "First":
+			tx = tx.First(&it, inline...)
+		case "Take":
+			tx = tx.Take(&it, inline...)
+		default:
+			tx = tx.Last(&it, inline...)
+		}
+		o.ids = []int{}
+		if errors.Is(tx.Error, gorm.ErrRecordNotFound) {
+			o.notFound = true
+		} else {
+			o.err = tx.Error
+			o.ids = append(o.ids, it.ID)
+		}
+	case "pluck":
+		o.ids = []int{}
+		tx := cond.ApplyCalls(start.Model(&cond.Item{}), env, c.Calls).Pluck("id", &o.ids)
 		o.err, o.affected = tx.Error, tx.RowsAffected
+	case "count-find":
+		// one chain value, counted and then read
+		q := cond.ApplyCalls(start.Model(&cond.Item{}), env, c.Calls)
+		o.err = q.Count(&o.count).Error
+		var items []cond.Item
+		if o.err == nil {
+			tx := q.Find(&items)
+			o.err, o.affected = tx.Error, tx.RowsAffected
+		}
 		o.ids = []int{}
 		for _, it := range items {
 			o.ids = append(o.ids, it.ID)
@@ -223,7 +335,7 @@ func run(c tcase) (outcome, error) {
 		o.ids = []int{}
 		if c.Fin.Composite {
 			it := Item2{ID: c.Fin.PK, K2: c.Fin.K2}
-			tx := cond.ApplyCalls(d.DB, env, c.Calls).Find(&it, inline...)
+			tx := cond.ApplyCalls(start, env, c.Calls).Find(&it, inline...)
 			o.err, o.affected = tx.Error, tx.RowsAffected
 			if tx.RowsAffected > 0 {
 				o.ids = append(o.ids, it.ID)
@@ -231,13 +343,13 @@ func run(c tcase) (outcome, error) {
 			break
 		}
 		it := cond.Item{ID: c.Fin.PK}
-		tx := cond.ApplyCalls(d.DB, env, c.Calls).Find(&it, inline...)
+		tx := cond.ApplyCalls(start, env, c.Calls).Find(&it, inline...)
 		o.err, o.affected = tx.Error, tx.RowsAffected
 		if tx.RowsAffected > 0 {
 			o.ids = append(o.ids, it.ID)
 		}
 	case "count":
-		tx := cond.ApplyCalls(d.DB.Model(&cond.Item{}), env, c.Calls).Count(&o.count)
+		tx := cond.ApplyCalls(start.Model(&cond.Item{}), env, c.Calls).Count(&o.count)
 		o.err = tx.Error
 	case "update":
 		var tx *gorm.DB
@@ -246,20 +358,36 @@ func run(c tcase) (outcome, error) {
 			model = &Item2{ID: c.Fin.PK, K2: c.Fin.K2}
 		}
 		if c.Fin.ModelFirst {
-			tx = cond.ApplyCalls(d.DB.Model(model), env, c.Calls)
+			tx = cond.ApplyCalls(start.Model(model), env, c.Calls)
 		} else {
-			tx = cond.ApplyCalls(d.DB, env, c.Calls).Model(model)
+			tx = cond.ApplyCalls(start, env, c.Calls).Model(model)
 		}
-		tx = tx.Update("mark", 7)
+		switch c.Fin.Variant {
+		case "Updates(map)":
+			tx = tx.Updates(map[string]interface{}{"mark": 7})
+		case "Updates(Item{Mark:7})":
+			tx = tx.Updates(cond.Item{Mark: 7})
+		case "UpdateColumn(mark,7)":
+			tx = tx.UpdateColumn("mark", 7)
+		case "UpdateColumns(map)":
+			tx = tx.UpdateColumns(map[string]interface{}{"mark": 7})
+		default:
+			tx = tx.Update("mark", 7)
+		}
 		o.err, o.affected = tx.Error, tx.RowsAffected
 	case "delete":
-		tx := cond.ApplyCalls(d.DB, env, c.Calls)
+		tx := cond.ApplyCalls(start, env, c.Calls)
 		if c.Fin.ViaModel {
 			tx = tx.Model(&cond.Item{ID: c.Fin.PK}).Delete(&cond.Item{}, inline...)
 		} else {
 			tx = tx.Delete(&cond.Item{ID: c.Fin.PK}, inline...)
 		}
 		o.err, o.affected = tx.Error, tx.RowsAffected
+	}
+	if c.Fin.Cfg == "tx" {
+		if err := root.Commit().Error; err != nil && o.err == nil {
+			return o, fmt.Errorf("commit: %w", err)
+		}
 	}
 	after, err := spec.Dump(d.SQL)
 	if err != nil {
@@ -306,7 +434,39 @@ func check(c tcase) (string, error) {
 			}
 		}
 		return unchanged(c.Rows, o.after, nil, false), nil
-	case "find":
+	case "first":
+		switch {
+		case len(want) == 0 && !o.notFound:
+			return fmt.Sprintf("%s returned id %v, want ErrRecordNotFound (reference predicate %s)", c.Fin.Variant, o.ids, pred), nil
+		case len(want) == 0:
+			return unchanged(c.Rows, o.after, nil, false), nil
+		case o.notFound:
+			return fmt.Sprintf("%s returned ErrRecordNotFound, want one of %v (reference predicate %s)", c.Fin.Variant, want, pred), nil
+		}
+		ok := false
+		switch c.Fin.Variant {
+		case "First":
+			ok = o.ids[0] == want[0]
+		case "Last":
+			ok = o.ids[0] == want[len(want)-1]
+		default:
+			for _, id := range want {
+				ok = ok || id == o.ids[0]
+			}
+		}
+		if !ok {
+			return fmt.Sprintf("%s returned id %d, candidates %v (reference predicate %s)", c.Fin.Variant, o.ids[0], want, pred), nil
+		}
+		return unchanged(c.Rows, o.after, nil, false), nil
+	case "count-find":
+		if o.count != int64(len(want)) {
+			return fmt.Sprintf("counted %d, want %d = ids %v (reference predicate %s)", o.count, len(want), want, pred), nil
+		}
+		if !cond.SameIDs(o.ids, want) {
+			return fmt.Sprintf("Find after Count on the same chain value read ids %v, want %v (reference predicate %s)", o.ids, want, pred), nil
+		}
+		return unchanged(c.Rows, o.after, nil, false), nil
+	case "find", "pluck":
 		if !cond.SameIDs(o.ids, want) {
 			return fmt.Sprintf("read ids %v, want %v (reference predicate %s)", o.ids, want, pred), nil
 		}
@@ -423,6 +583,15 @@ func nontrivial(c tcase, selected int) bool {
 func classes(c tcase) []string {
 	cl := cond.Classes(c.Calls, c.Fin.Inline)
 	cl = append(cl, "fin:"+c.Fin.Kind, fmt.Sprintf("calls:%d", len(c.Calls)))
+	if c.Fin.Variant != "" {
+		cl = append(cl, "fin:"+c.Fin.Kind+"/"+c.Fin.Variant)
+	}
+	if c.Fin.Cfg != "" {
+		cl = append(cl, "config:"+c.Fin.Cfg)
+	}
+	if c.Fin.Scope != nil {
+		cl = append(cl, "scope:where-in-Scopes")
+	}
 	if c.Fin.PK != 0 || c.Fin.K2 != 0 {
 		cl = append(cl, "pk:model-value")
 	}
